@@ -32,14 +32,24 @@ var R *mon.Run
 
 type proofStats struct {
 	pruned, kept int
-	keptExotic int
+	keptExotic   int
+	// pruned branches that were already part of the tree the proof was made from (a tree taken out of an earlier proof)
+	sourcePruned int
+}
+
+// prunedFor is the pruned-branch cell that stands for `orig` in a proof made
+// from a tree of level 0 or 1: 01 ‖ 01 ‖ hash ‖ depth, hash and depth being
+// those of the replaced sub-tree at level zero (for an ordinary sub-tree its
+// representation hash; for a sub-tree that itself contains pruned branches,
+// the hash of the complete sub-tree it stands for).
+func prunedFor(orig *cell.Cell) *cell.Cell {
+	return cell.NewPrunedRaw(1, []cell.Hash{orig.HashAt(0)}, []int{orig.DepthAt(0)})
 }
 
 // classify how a pruned-branch cell found in a proof differs from the one
-// that must replace `orig` (01 ‖ 01 ‖ hash ‖ depth; the original trees are
-// ordinary, so the proof has level 1).
+// that must replace `orig`.
 func prunedDefect(p, orig *cell.Cell) string {
-	want := cell.NewPruned(orig, 1)
+	want := prunedFor(orig)
 	if rbits.Equal(p.Bits, want.Bits) && len(p.Refs) == 0 {
 		return ""
 	}
@@ -58,10 +68,109 @@ func prunedDefect(p, orig *cell.Cell) string {
 	return "other"
 }
 
+func isPruned(c *cell.Cell) bool { return c.Exotic && c.Type() == cell.PrunedBranch }
+
+// minimalPaths drops duplicates and every path that has another requested path as a proper prefix
+// (pruning below a pruned position changes nothing).
+func minimalPaths(paths [][]int) [][]int {
+	key := func(p []int) string { return fmt.Sprint(p) }
+	var out [][]int
+	seen := map[string]bool{}
+	for _, p := range paths {
+		covered := false
+		for _, q := range paths {
+			if len(q) < len(p) {
+				same := true
+				for i := range q {
+					if q[i] != p[i] {
+						same = false
+						break
+					}
+				}
+				if same {
+					covered = true
+					break
+				}
+			}
+		}
+		if !covered && !seen[key(p)] {
+			seen[key(p)] = true
+			out = append(out, p)
+		}
+	}
+	return out
+}
+
+// checkPositions: the cursor API prunes positions. The proof must have a
+// pruned branch at every requested position (unless one of its ancestors was
+// requested as well) and nowhere else.
+func checkPositions(src string, body, orig *cell.Cell, requested [][]int, wit map[string]any) bool {
+	min := minimalPaths(requested)
+	expected := int64(0)
+	for _, pth := range min {
+		p, o := body, orig
+		for k, j := range pth {
+			if isPruned(p) && !isPruned(o) {
+				wit["requested_position"], wit["pruned_at_its_ancestor"] = pth, pth[:k]
+				R.Violation("pruned-above-the-requested-position@"+src, wit)
+				return false
+			}
+			if j >= len(p.Refs) || j >= len(o.Refs) {
+				R.HarnessError("requested position %v does not exist in the proof although all kept cells equal the original", pth)
+				return false
+			}
+			p, o = p.Refs[j], o.Refs[j]
+		}
+		if !isPruned(p) {
+			wit["requested_position"] = pth
+			R.Violation("requested-position-not-pruned@"+src, wit)
+			return false
+		}
+		if !isPruned(o) {
+			expected++
+		}
+	}
+	// number of positions (paths from the root) at which the proof has a pruned branch that the source tree did not have
+	type pair struct{ p, o *cell.Cell }
+	memo := map[pair]int64{}
+	const sat = int64(1) << 40
+	var count func(p, o *cell.Cell) int64
+	count = func(p, o *cell.Cell) int64 {
+		if isPruned(p) {
+			if isPruned(o) {
+				return 0
+			}
+			return 1
+		}
+		if v, ok := memo[pair{p, o}]; ok {
+			return v
+		}
+		var n int64
+		for i := range p.Refs {
+			if i < len(o.Refs) {
+				n += count(p.Refs[i], o.Refs[i])
+			}
+			if n > sat {
+				n = sat
+			}
+		}
+		memo[pair{p, o}] = n
+		return n
+	}
+	if got := count(body, orig); got != expected {
+		wit["requested_positions"], wit["positions_pruned_in_the_proof"], wit["positions_expected"] = min, got, expected
+		R.Violation("pruned-where-not-requested@"+src, wit)
+		return false
+	}
+	R.Count("prune_positions_verified", expected)
+	return true
+}
+
 // verifyProof checks everything the property says about the proof bytes
 // that does not depend on dictionaries. src names the producer for
 // signatures. It returns the pruned tree under the Merkle-proof root.
-func verifyProof(src string, proof []byte, orig *cell.Cell, wit map[string]any) (*cell.Cell, proofStats, bool) {
+// requested (nil = not compared) lists the positions pruned through the cursor API.
+func verifyProof(src string, proof []byte, orig *cell.Cell, wit map[string]any, requested [][]int) (*cell.Cell, proofStats, bool) {
 	var st proofStats
 	wit["proof_boc"] = mon.HexTrunc(proof, 1500)
 	roots, _, _, err := rboc.Read(proof)
@@ -82,14 +191,17 @@ func verifyProof(src string, proof []byte, orig *cell.Cell, wit map[string]any) 
 		return nil, st, false
 	}
 	d := pr.Data()
-	oh := orig.Hash()
+	// the commitment is to the tree at level zero: for a tree of ordinary cells its representation hash,
+	// for a tree that was itself taken out of a proof the hash of the complete tree it stands for
+	oh := orig.HashAt(0)
+	od := orig.DepthAt(0)
 	if !bytes.Equal(d[1:33], oh[:]) {
 		wit["stored_hash"], wit["original_root_hash"] = mon.Hex(d[1:33]), mon.Hex(oh[:])
 		R.Violation("root-hash-mismatch@"+src, wit)
 		return nil, st, false
 	}
-	if sd := int(d[33])<<8 | int(d[34]); sd != orig.Depth() {
-		wit["stored_depth"], wit["original_root_depth"] = sd, orig.Depth()
+	if sd := int(d[33])<<8 | int(d[34]); sd != od {
+		wit["stored_depth"], wit["original_root_depth"] = sd, od
 		R.Violation("root-depth-mismatch@"+src, wit)
 		return nil, st, false
 	}
@@ -104,6 +216,17 @@ func verifyProof(src string, proof []byte, orig *cell.Cell, wit map[string]any) 
 			return
 		}
 		seen[pair{p, o}] = true
+		if isPruned(o) {
+			// a pruned branch of the source tree: kept or pruned again, it is the same cell
+			if !p.Exotic || !rbits.Equal(p.Bits, o.Bits) || len(p.Refs) != 0 {
+				wit["path"], wit["proof_cell"], wit["source_pruned_branch"] = path, mon.Hex(p.Data()), mon.Hex(o.Data())
+				R.Violation("pruned-branch-of-the-source-tree-changed@"+src, wit)
+				ok = false
+				return
+			}
+			st.sourcePruned++
+			return
+		}
 		if o.Exotic && p.Exotic && p.Type() == o.Type() && rbits.Equal(p.Bits, o.Bits) && len(p.Refs) == len(o.Refs) && p.Type() != cell.PrunedBranch {
 			// an exotic cell of the original (a library cell) kept as it is
 			st.kept++
@@ -124,7 +247,7 @@ func verifyProof(src string, proof []byte, orig *cell.Cell, wit map[string]any) 
 				return
 			}
 			if what := prunedDefect(p, o); what != "" {
-				want := cell.NewPruned(o, 1)
+				want := prunedFor(o)
 				wit["path"], wit["pruned_cell"], wit["want"] = path, mon.Hex(p.Data()), mon.Hex(want.Data())
 				wit["replaced_subtree_depth"], wit["replaced_subtree_refs"] = o.Depth(), len(o.Refs)
 				R.Violation("pruned-cell-mismatch/"+what+"@"+src, wit)
@@ -156,9 +279,12 @@ func verifyProof(src string, proof []byte, orig *cell.Cell, wit map[string]any) 
 		R.Violation("pruned-tree-hash-mismatch@"+src, wit)
 		return nil, st, false
 	}
-	if body.DepthAt(0) != orig.Depth() {
-		wit["pruned_tree_depth_level0"], wit["original_root_depth"] = body.DepthAt(0), orig.Depth()
+	if body.DepthAt(0) != od {
+		wit["pruned_tree_depth_level0"], wit["original_root_depth"] = body.DepthAt(0), od
 		R.Violation("pruned-tree-depth-mismatch@"+src, wit)
+		return nil, st, false
+	}
+	if requested != nil && !checkPositions(src, body, orig, requested, wit) {
 		return nil, st, false
 	}
 	// tongo's own parse of the proof reports the same root hash (ties C02 to the prover's output)
@@ -224,7 +350,26 @@ type valKind struct {
 	name  string
 	gen   func(r *mon.Rng, i int, room int) dict.Value
 	prove func(p *tboc.MerkleProver, root *tboc.Cell, key tboc.BitString) (dict.Value, []byte, error)
+	// augmented dictionaries (HashmapAug n X Y): the extra of a leaf, of a fork, and its size for the reference reader
+	extra func(r *mon.Rng) dict.Value
+	fork  func(l, r dict.Value) dict.Value
+	split func(bits []bool, refs []*cell.Cell) (int, int, error)
 }
+
+// The augmentation used here: extra = sum:uint16 note:^Cell, a fork carries the sum of its children
+// (as the balance in ShardAccounts does) and a note cell of its own, so that forks have data after
+// the label and a third reference.
+type augExtra struct {
+	Sum  uint16
+	Note tboc.Cell `tlb:"^"`
+}
+
+type augLeaf struct {
+	Extra augExtra
+	Value uint32
+}
+
+func augNote(sum uint64) *cell.Cell { return cell.New(rbits.UintBits(sum^0xa5a5, 16), false) }
 
 func gramsBits(v uint64) []bool {
 	l := 0
@@ -254,8 +399,28 @@ func libraryCell(r *mon.Rng) *cell.Cell {
 }
 
 var valKinds = []*valKind{
+	// HashmapAug: what tlb.ProveKeyInHashmap is used for in practice (ShardAccounts, the transaction dictionaries of a block)
+	{name: "aug-uint32", gen: func(r *mon.Rng, i, room int) dict.Value { return dict.Value{Bits: r.Bits(32)} },
+		prove: func(p *tboc.MerkleProver, root *tboc.Cell, key tboc.BitString) (dict.Value, []byte, error) {
+			v, proof, err := tlb.ProveKeyInHashmap[augLeaf](p, root, key)
+			return dict.Value{Bits: rbits.UintBits(uint64(v.Value), 32)}, proof, err
+		},
+		extra: func(r *mon.Rng) dict.Value {
+			sum := r.Uint64() & 0xffff
+			return dict.Value{Bits: rbits.UintBits(sum, 16), Refs: []*cell.Cell{cell.New(r.Bits(r.Intn(30)), false)}}
+		},
+		fork: func(l, r dict.Value) dict.Value {
+			sum := (rbits.ToUint(l.Bits) + rbits.ToUint(r.Bits)) & 0xffff
+			return dict.Value{Bits: rbits.UintBits(sum, 16), Refs: []*cell.Cell{augNote(sum)}}
+		},
+		split: func(bits []bool, refs []*cell.Cell) (int, int, error) {
+			if len(bits) < 16 || len(refs) < 1 {
+				return 0, 0, fmt.Errorf("extra needs 16 bits and a reference, have %d and %d", len(bits), len(refs))
+			}
+			return 16, 1, nil
+		}},
 	// the value references a library cell (an exotic cell that stays in the proof); such a tree exists only as a parsed BOC
-	{"Any-with-library-ref", func(r *mon.Rng, i, room int) dict.Value {
+	{name: "Any-with-library-ref", gen: func(r *mon.Rng, i, room int) dict.Value {
 		v := dict.Value{Bits: r.Bits(r.Intn(min(room, 100) + 1))}
 		if i%2 == 0 {
 			v.Refs = append(v.Refs, libraryCell(r))
@@ -263,7 +428,7 @@ var valKinds = []*valKind{
 			v.Refs = append(v.Refs, cell.New(r.Bits(r.Intn(40)), false, libraryCell(r)))
 		}
 		return v
-	}, func(p *tboc.MerkleProver, root *tboc.Cell, key tboc.BitString) (dict.Value, []byte, error) {
+	}, prove: func(p *tboc.MerkleProver, root *tboc.Cell, key tboc.BitString) (dict.Value, []byte, error) {
 		v, proof, err := tlb.ProveKeyInHashmap[tlb.Any](p, root, key)
 		if err != nil {
 			return dict.Value{}, proof, err
@@ -272,22 +437,22 @@ var valKinds = []*valKind{
 		rc := bridge.FromTongo(&c)
 		return dict.Value{Bits: rc.Bits, Refs: rc.Refs}, proof, nil
 	}},
-	{"uint32", func(r *mon.Rng, i, room int) dict.Value { return dict.Value{Bits: r.Bits(32)} }, proveU32},
+	{name: "uint32", gen: func(r *mon.Rng, i, room int) dict.Value { return dict.Value{Bits: r.Bits(32)} }, prove: proveU32},
 	// every key carries the same value: equal leaves and sub-trees become one cell when the dictionary travels as a BOC
-	{"uint32-constant", func(r *mon.Rng, i, room int) dict.Value { return dict.Value{Bits: rbits.UintBits(0xC0FFEE, 32)} }, proveU32},
-	{"Grams", func(r *mon.Rng, i, room int) dict.Value {
+	{name: "uint32-constant", gen: func(r *mon.Rng, i, room int) dict.Value { return dict.Value{Bits: rbits.UintBits(0xC0FFEE, 32)} }, prove: proveU32},
+	{name: "Grams", gen: func(r *mon.Rng, i, room int) dict.Value {
 		return dict.Value{Bits: gramsBits(r.Uint64() >> uint(1+r.Intn(63)))}
-	}, func(p *tboc.MerkleProver, root *tboc.Cell, key tboc.BitString) (dict.Value, []byte, error) {
+	}, prove: func(p *tboc.MerkleProver, root *tboc.Cell, key tboc.BitString) (dict.Value, []byte, error) {
 		v, proof, err := tlb.ProveKeyInHashmap[tlb.Grams](p, root, key)
 		return dict.Value{Bits: gramsBits(uint64(v))}, proof, err
 	}},
-	{"Any", func(r *mon.Rng, i, room int) dict.Value {
+	{name: "Any", gen: func(r *mon.Rng, i, room int) dict.Value {
 		v := dict.Value{Bits: r.Bits(r.Intn(min(room, 200) + 1))}
 		for k := 0; k < r.Intn(4); k++ {
 			v.Refs = append(v.Refs, leafTree(r))
 		}
 		return v
-	}, func(p *tboc.MerkleProver, root *tboc.Cell, key tboc.BitString) (dict.Value, []byte, error) {
+	}, prove: func(p *tboc.MerkleProver, root *tboc.Cell, key tboc.BitString) (dict.Value, []byte, error) {
 		v, proof, err := tlb.ProveKeyInHashmap[tlb.Any](p, root, key)
 		if err != nil {
 			return dict.Value{}, proof, err
@@ -376,7 +541,9 @@ func mkWidth[K keyC]() *widthOps {
 	}
 }
 
-var widths = []*widthOps{mkWidth[tlb.Uint8](), mkWidth[tlb.Uint16](), mkWidth[tlb.Uint32](), mkWidth[tlb.Uint64](), mkWidth[tlb.Bits256]()}
+// byte-aligned widths and widths that are a multiple of neither 8 nor 4 (the statement: key widths 8..256)
+var widths = []*widthOps{mkWidth[tlb.Uint8](), mkWidth[tlb.Uint16](), mkWidth[tlb.Uint32](), mkWidth[tlb.Uint64](), mkWidth[tlb.Bits256](),
+	mkWidth[tlb.Uint13](), mkWidth[tlb.Uint30](), mkWidth[tlb.Uint61](), mkWidth[tlb.Bits96]()}
 
 func tongoKey(b []bool) tboc.BitString {
 	s := tboc.NewBitString(len(b))
@@ -428,7 +595,85 @@ func sharedOnPath(root *tboc.Cell, rd *dict.Reader, key []bool) bool {
 	return false
 }
 
+// readAll leaves every cell of the tree read to its end (bits and references), the state after a full decode.
+func readAll(c *tboc.Cell, seen map[*tboc.Cell]bool) {
+	if seen[c] {
+		return
+	}
+	seen[c] = true
+	c.ResetCounters()
+	c.ReadRemainingBits()
+	for {
+		if _, err := c.NextRef(); err != nil {
+			break
+		}
+	}
+	for _, r := range c.Refs() {
+		readAll(r, seen)
+	}
+}
+
+// reprove takes the dictionary out of a proof (as tongo parses it) and asks for a proof of the same key again.
+func reprove(vk *valKind, rd *dict.Reader, proof []byte, complete *cell.Cell, e dict.Entry, wit map[string]any) bool {
+	src := "ProveKeyInHashmap(dictionary taken from a proof)"
+	wit["key"] = rbits.FiftHex(e.Key)
+	wit["first_proof_boc"] = mon.HexTrunc(proof, 1500)
+	cs, err := tboc.DeserializeBoc(proof)
+	if err != nil || len(cs) != 1 || len(cs[0].Refs()) != 1 {
+		R.HarnessError("a verified proof does not parse any more: %v", err)
+		return false
+	}
+	root2 := cs[0].Refs()[0]
+	orig2 := bridge.FromTongo(root2)
+	if orig2.Err() != nil || orig2.HashAt(0) != complete.HashAt(0) {
+		R.HarnessError("the body of a verified proof does not have the level-0 hash of the dictionary")
+		return false
+	}
+	var got dict.Value
+	var proof2 []byte
+	p := mon.Guard(func() {
+		var pv *tboc.MerkleProver
+		pv, err = tboc.NewMerkleProver(root2)
+		if err != nil {
+			return
+		}
+		got, proof2, err = vk.prove(pv, root2, tongoKey(e.Key))
+	})
+	if p != nil {
+		wit["panic"], wit["stack"] = p.Value, mon.Trunc(p.Stack, 1200)
+		R.Violation("panic@"+p.Site+"/"+src, wit)
+		return false
+	}
+	oh := complete.Hash()
+	R.Eval(fmt.Sprintf("reprove/%x/%s", oh[:8], dict.KeyString(e.Key)))
+	R.Count("proofs_from_dictionaries_taken_out_of_a_proof", 1)
+	R.Seen("source_tree_levels", fmt.Sprint(orig2.Level()))
+	if err != nil {
+		wit["err"] = err.Error()
+		R.Violation("error-for-present-key@"+src, wit)
+		return false
+	}
+	if !sameValue(got, e.Val) {
+		wit["returned_value"], wit["want"] = showValue(got), showValue(e.Val)
+		R.Violation("returned-value-mismatch@"+src, wit)
+		return false
+	}
+	body2, st, ok := verifyProof(src, proof2, orig2, wit, nil)
+	if !ok {
+		return false
+	}
+	R.Count("pruned_branches_of_the_source_tree_verified", int64(st.sourcePruned))
+	if v, found, lerr := rd.Lookup(body2, e.Key); lerr != nil || !found || !sameValue(v, e.Val) {
+		wit["lookup_in_proof"] = fmt.Sprintf("found=%v err=%v value=%s", found, lerr, showValue(v))
+		wit["proof_boc"] = mon.HexTrunc(proof2, 1500)
+		R.Violation("value-not-recoverable@"+src, wit)
+		return false
+	}
+	return true
+}
+
 func dictCase(idx int) {
+
 	r := R.Rng("dict", idx)
 	w := widths[idx%len(widths)]
 	vk := valKinds[(idx/len(widths))%len(valKinds)]
@@ -437,10 +682,10 @@ func dictCase(idx int) {
 	keys := dict.GenKeys(r, n, shape, 300)
 	if idx%23 == 5 && n >= 64 {
 		// a comb: key i has only bit i set, so the path to the last keys forks at (almost) every one of
-		// up to 100 levels — deeper than any balanced dictionary of this size
+		// n levels (up to 256) — deeper than any balanced dictionary of this size
 		shape = "comb"
 		keys = nil
-		for i := 0; i < n && i < 100; i++ {
+		for i := 0; i < n; i++ {
 			k := make([]bool, n)
 			k[i] = true
 			keys = append(keys, k)
@@ -455,7 +700,11 @@ func dictCase(idx int) {
 	for i, k := range keys {
 		v := vk.gen(r, i, maxVal)
 		model[dict.KeyString(k)] = v
-		entries = append(entries, dict.Entry{Key: k, Val: v})
+		e := dict.Entry{Key: k, Val: v}
+		if vk.extra != nil {
+			e.Extra = vk.extra(r)
+		}
+		entries = append(entries, e)
 	}
 	dict.SortEntries(entries)
 
@@ -495,7 +744,7 @@ func dictCase(idx int) {
 			root = cs[0]
 		}
 	default:
-		b := &dict.Builder{N: n}
+		b := &dict.Builder{N: n, Aug: vk.extra != nil, Fork: vk.fork}
 		if source == "reference-mixed-labels" {
 			fr := r.Fork("labels", 0)
 			b.Choose = func(label []bool, m, depth, room int) dict.Form {
@@ -526,7 +775,7 @@ func dictCase(idx int) {
 		}
 	}
 	orig := bridge.FromTongo(root)
-	rd := &dict.Reader{N: n}
+	rd := &dict.Reader{N: n, SplitExtra: vk.split}
 	if p, err := rd.Parse(orig); err != nil || len(p.Entries) != len(entries) {
 		R.HarnessError("the original dictionary does not read back (%s, %s): %v", source, via, err)
 		return
@@ -537,6 +786,21 @@ func dictCase(idx int) {
 	R.Seen("dict_widths", fmt.Sprint(n))
 	R.Seen("dict_value_kinds", vk.name)
 	R.Count("dictionaries", 1)
+	// State of the read cursors of the dictionary's cells when a proof is asked for: everything rewound,
+	// or the state a program leaves behind that has decoded the dictionary (every cell read to its end)
+	// and then rewinds the root cell it holds, as it must before reading it again.
+	cursors := mon.Pick(r, []string{"all-rewound", "read-to-the-end-then-root-rewound"})
+	R.Seen("dict_cursor_states", cursors)
+	if cursors != "all-rewound" {
+		readAll(root, map[*tboc.Cell]bool{})
+	}
+	rewind := func() {
+		if cursors == "all-rewound" {
+			resetAll(root, map[*tboc.Cell]bool{})
+			return
+		}
+		root.ResetCounters()
+	}
 	base := func() map[string]any {
 		w := map[string]any{"case": idx, "key_bits": n, "entries": len(entries), "shape": shape, "value_kind": vk.name, "dictionary_source": source, "delivered": via}
 		var ks []string
@@ -574,7 +838,18 @@ func dictCase(idx int) {
 	}
 	if len(pick) > 64 {
 		pick = r.Perm(len(entries))[:64]
+		if shape == "comb" {
+			// sorted ascending, the first entries are the keys with the highest bit positions: the deepest leaves
+			pick = pick[:0]
+			for i := 0; i < 24; i++ {
+				pick = append(pick, i)
+			}
+			for _, i := range r.Perm(len(entries) - 24)[:40] {
+				pick = append(pick, 24+i)
+			}
+		}
 	}
+	reproved := 0
 	for _, i := range pick {
 		e := entries[i]
 		wit := base()
@@ -588,7 +863,7 @@ func dictCase(idx int) {
 			if err != nil {
 				return
 			}
-			resetAll(root, map[*tboc.Cell]bool{})
+			rewind()
 			got, proof, err = vk.prove(pv, root, tongoKey(e.Key))
 		})
 		if p != nil {
@@ -609,7 +884,7 @@ func dictCase(idx int) {
 			R.Violation("returned-value-mismatch@"+src, wit)
 			return
 		}
-		body, st, ok := verifyProof(src, proof, orig, wit)
+		body, st, ok := verifyProof(src, proof, orig, wit, nil)
 		if !ok {
 			return
 		}
@@ -635,36 +910,57 @@ func dictCase(idx int) {
 			return
 		}
 		// tongo's own decoder reads the same pairs out of the proof as the reference does
-		pp, perr := (&dict.Reader{N: n, AllowPruned: true}).Parse(body)
+		pp, perr := (&dict.Reader{N: n, AllowPruned: true, SplitExtra: vk.split}).Parse(body)
 		if perr != nil {
 			wit["reference_reader"] = perr.Error()
 			R.Violation("value-not-recoverable/proof-is-not-a-dictionary@"+src, wit)
 			return
 		}
 		R.Count("entries_visible_in_proofs", int64(len(pp.Entries)))
-		var dec []dict.Entry
-		var derr error
-		if p := mon.Guard(func() {
-			cs, err := tboc.DeserializeBoc(proof)
-			if err != nil {
-				derr = err
+		if decode := w.decodeProof[vk.name]; decode != nil {
+			var dec []dict.Entry
+			var derr error
+			if p := mon.Guard(func() {
+				cs, err := tboc.DeserializeBoc(proof)
+				if err != nil {
+					derr = err
+					return
+				}
+				dec, derr = decode(cs[0])
+			}); p != nil {
+				wit["panic"] = p.Value
+				R.Violation("panic@"+p.Site+"/Unmarshal(MerkleProof[Hashmap])", wit)
 				return
 			}
-			dec, derr = w.decodeProof[vk.name](cs[0])
-		}); p != nil {
-			wit["panic"] = p.Value
-			R.Violation("panic@"+p.Site+"/Unmarshal(MerkleProof[Hashmap])", wit)
-			return
+			// The statement asks that the value of the proven key can be decoded from the proof; which other
+			// pairs tongo's dictionary decoder lists for a partly pruned dictionary is not part of it (counted).
+			var mine *dict.Entry
+			for i := range dec {
+				if rbits.Equal(dec[i].Key, e.Key) {
+					mine = &dec[i]
+				}
+			}
+			if derr != nil || mine == nil || !sameValue(mine.Val, e.Val) {
+				wit["err"], wit["tongo_lists"] = fmt.Sprint(derr), len(dec)
+				wit["proof_boc"] = mon.HexTrunc(proof, 1500)
+				R.Violation("tongo-cannot-decode-the-proven-key-from-the-proof@"+src, wit)
+				return
+			}
+			same := len(dec) == len(pp.Entries)
+			for i := 0; same && i < len(dec); i++ {
+				same = rbits.Equal(dec[i].Key, pp.Entries[i].Key) && sameValue(dec[i].Val, pp.Entries[i].Val)
+			}
+			if !same {
+				R.Count("outside_statement/tongo_lists_other_pairs_of_a_pruned_dictionary_differently", 1)
+			}
 		}
-		same := derr == nil && len(dec) == len(pp.Entries)
-		for i := 0; same && i < len(dec); i++ {
-			same = rbits.Equal(dec[i].Key, pp.Entries[i].Key) && sameValue(dec[i].Val, pp.Entries[i].Val)
-		}
-		if !same {
-			wit["err"], wit["tongo_lists"], wit["reference_lists"] = fmt.Sprint(derr), len(dec), len(pp.Entries)
-			wit["proof_boc"] = mon.HexTrunc(proof, 1500)
-			R.Violation("tongo-decodes-proof-differently@"+src, wit)
-			return
+		// ---- the dictionary found inside a proof is a dictionary one can prove from again (a tree of level 1):
+		// the new proof commits to the level-0 hash of that tree, which is the hash of the complete dictionary
+		if reproved < 3 && (i == pick[0] || r.Chance(1, 8)) {
+			reproved++
+			if !reprove(vk, rd, proof, orig, e, base()) {
+				return
+			}
 		}
 		if idx < 40 && i == pick[0] && len(entries) > 2 && len(entries) < 7 {
 			R.Sample(map[string]any{"kind": "dictionary proof", "key_bits": n, "entries": len(entries), "key": rbits.FiftHex(e.Key), "value": showValue(e.Val),
@@ -723,7 +1019,7 @@ func dictCase(idx int) {
 			if err != nil {
 				return
 			}
-			resetAll(root, map[*tboc.Cell]bool{})
+			rewind()
 			_, proof, err = vk.prove(pv, root, tongoKey(a.key))
 		})
 		if p != nil {
@@ -748,24 +1044,61 @@ func dictCase(idx int) {
 func treeCase(idx int) {
 	r := R.Rng("tree", idx)
 	var rootRef *cell.Cell
-	kind := mon.Pick(r, []string{"random-dag", "random-dag", "random-dag", "chain", "wide", "single-cell", "with-exotic-leaves", "deep-chain"})
+	kind := mon.Pick(r, []string{"random-dag", "random-dag", "random-dag", "chain", "wide", "single-cell", "with-exotic-leaves", "deep-chain", "with-pruned-branches", "taken-from-a-proof"})
+	// ordinary cells over leaves made by `leaf`
+	var over func(d int, leaf func() *cell.Cell) *cell.Cell
+	over = func(d int, leaf func() *cell.Cell) *cell.Cell {
+		c := cell.New(r.Bits(r.Intn(60)), false)
+		for k := 0; k < r.Range(1, 3); k++ {
+			switch {
+			case d >= 3 || r.Chance(1, 3):
+				c.Refs = append(c.Refs, leaf())
+			default:
+				c.Refs = append(c.Refs, over(d+1, leaf))
+			}
+		}
+		return c
+	}
 	switch kind {
 	case "with-exotic-leaves":
 		// ordinary cells over library cells: exotic cells (of level 0) that stay in the proof
-		var mk func(d int) *cell.Cell
-		mk = func(d int) *cell.Cell {
-			c := cell.New(r.Bits(r.Intn(60)), false)
-			for k := 0; k < r.Range(1, 3); k++ {
-				switch {
-				case d >= 3 || r.Chance(1, 3):
-					c.Refs = append(c.Refs, libraryCell(r))
-				default:
-					c.Refs = append(c.Refs, mk(d+1))
-				}
+		rootRef = over(0, func() *cell.Cell { return libraryCell(r) })
+	case "with-pruned-branches":
+		// a partial tree (level 1): some sub-trees are pruned branches already, as in a tree received inside a proof
+		rootRef = over(0, func() *cell.Cell {
+			switch r.Intn(3) {
+			case 0:
+				return gen.RawPruned(r, 1)
+			case 1:
+				return libraryCell(r)
 			}
-			return c
+			return cell.New(r.Bits(r.Intn(60)), false)
+		})
+		if rootRef.Level() == 0 {
+			rootRef.Refs[0] = gen.RawPruned(r, 1)
+			rootRef = cell.New(rootRef.Bits, false, rootRef.Refs...)
 		}
-		rootRef = mk(0)
+	case "taken-from-a-proof":
+		// the reference prover's output for a random DAG: the body of a proof is itself a tree one can prove from
+		full := gen.RandomDag(r, gen.DagOpts{Nodes: r.Range(4, 40), SmallBits: true})
+		cut := r.Range(1, 4)
+		var prune func(c *cell.Cell, d int) *cell.Cell
+		prune = func(c *cell.Cell, d int) *cell.Cell {
+			if d > 0 && cut > 0 && r.Chance(1, 3) {
+				cut--
+				return prunedFor(c)
+			}
+			n := cell.New(c.Bits, c.Exotic)
+			for _, x := range c.Refs {
+				n.Refs = append(n.Refs, prune(x, d+1))
+			}
+			return n
+		}
+		rootRef = prune(full, 0)
+		if rootRef.HashAt(0) != full.Hash() {
+			R.HarnessError("reference pruning changed the level-0 hash")
+			return
+		}
 	case "deep-chain":
 		// more than 32 steps between the root and the pruned position
 		rootRef = cell.New(r.Bits(8), false, cell.New(r.Bits(8), false), cell.New(r.Bits(9), false))
@@ -789,8 +1122,14 @@ func treeCase(idx int) {
 		R.HarnessError("generator produced an invalid tree: %v", rootRef.Err())
 		return
 	}
+	if rootRef.Level() > 1 {
+		R.HarnessError("generator produced a tree of level %d", rootRef.Level())
+		return
+	}
 	via := mon.Pick(r, []string{"in-memory", "boc"})
-	if kind == "with-exotic-leaves" {
+	hasExotic := false
+	cell.Walk(rootRef, func(c *cell.Cell) { hasExotic = hasExotic || c.Exotic })
+	if hasExotic {
 		via = "boc"
 	}
 	var root *tboc.Cell
@@ -814,32 +1153,64 @@ func treeCase(idx int) {
 		return
 	}
 	R.Seen("tree_kinds", kind+"/"+via)
+	R.Seen("source_tree_levels", fmt.Sprint(orig.Level()))
 	R.Count("trees", 1)
 	src := "MerkleProver.CreateProof"
 	sets := r.Range(2, 5)
-	for s := 0; s < sets; s++ {
-		wit := map[string]any{"case": idx, "tree_kind": kind, "delivered": via, "prune_set": s}
-		if b, err := rboc.Write([]*cell.Cell{orig}, rboc.Options{}); err == nil {
-			wit["tree_boc"] = mon.HexTrunc(b, 1500)
+	// one prover for all prune sets of the tree: every set gets its own Cursor(), all sets are marked first and
+	// the proofs are created afterwards, in another order (a prover is read-only, every Cursor() has its own
+	// set of positions); or a fresh prover per set
+	shareProver := idx%3 == 0
+	var sharedProver *tboc.MerkleProver
+	if shareProver {
+		if p := mon.Guard(func() { sharedProver, err = tboc.NewMerkleProver(root) }); p != nil || err != nil {
+			R.Violation("error@NewMerkleProver", map[string]any{"case": idx, "tree_kind": kind, "err": fmt.Sprint(err, p)})
+			return
 		}
-		var paths [][]int
-		var proof []byte
-		style := mon.Pick(r, []string{"few", "few", "many", "root", "none", "nested", "leaves"})
+		R.Count("trees_with_one_prover_and_several_live_cursors", 1)
+	}
+	treeBoc := ""
+	if b, err := rboc.Write([]*cell.Cell{orig}, rboc.Options{}); err == nil {
+		treeBoc = mon.HexTrunc(b, 1500)
+	}
+	type pruneSet struct {
+		s      int
+		wit    map[string]any
+		paths  [][]int
+		style  string
+		pv     *tboc.MerkleProver
+		cur    *tboc.Cursor
+		failed bool
+	}
+	// mark: take a cursor and prune the positions of one set
+	mark := func(s int) *pruneSet {
+		r := r.Fork("prune-set", s)
+		wit := map[string]any{"case": idx, "tree_kind": kind, "delivered": via, "prune_set": s, "one_prover_for_all_sets": shareProver, "tree_boc": treeBoc}
+		paths := [][]int{}
+		var err error
+		style := mon.Pick(r, []string{"few", "few", "many", "root", "none", "nested", "leaves", "siblings-first", "siblings-first"})
+		ps := &pruneSet{s: s, wit: wit, style: style}
 		p := mon.Guard(func() {
-			var pv *tboc.MerkleProver
-			pv, err = tboc.NewMerkleProver(root)
-			if err != nil {
-				return
+			pv := sharedProver
+			if pv == nil {
+				pv, err = tboc.NewMerkleProver(root)
+				if err != nil {
+					return
+				}
 			}
 			cur := pv.Cursor()
-			descend := func(maxDepth int, toLeaf bool) (*tboc.Cursor, []int) {
-				c, o := cur, orig
-				var pth []int
+			ps.pv, ps.cur = pv, cur
+			descendFrom := func(c *tboc.Cursor, o *cell.Cell, pth []int, maxDepth int, toLeaf bool) (*tboc.Cursor, *cell.Cell, []int) {
+				pth = append([]int(nil), pth...)
 				for d := 0; (toLeaf || d < maxDepth) && len(o.Refs) > 0 && d < 400; d++ {
 					j := r.Intn(len(o.Refs))
 					c, o = c.Ref(j), o.Refs[j]
 					pth = append(pth, j)
 				}
+				return c, o, pth
+			}
+			descend := func(maxDepth int, toLeaf bool) (*tboc.Cursor, []int) {
+				c, _, pth := descendFrom(cur, orig, nil, maxDepth, toLeaf)
 				return c, pth
 			}
 			switch style {
@@ -861,6 +1232,36 @@ func treeCase(idx int) {
 					a.Prune()
 					paths = append(paths, up)
 				}
+			case "siblings-first":
+				// cursors are values one keeps: take the cursors of all children of a node (and of some
+				// grandchildren) first, decide which of them to prune afterwards, in another order
+				type held struct {
+					c   *tboc.Cursor
+					pth []int
+				}
+				var hs []held
+				for round := 0; round < r.Range(1, 3); round++ {
+					c, o, pth := descendFrom(cur, orig, nil, r.Intn(6), false)
+					for j := range o.Refs {
+						cj := c.Ref(j)
+						pj := append(append([]int(nil), pth...), j)
+						hs = append(hs, held{cj, pj})
+						if r.Bool() {
+							for k := range o.Refs[j].Refs {
+								hs = append(hs, held{cj.Ref(k), append(append([]int(nil), pj...), k)})
+							}
+						}
+					}
+				}
+				if len(hs) > 1 {
+					R.Count("prune_sets_with_several_cursors_held_before_pruning", 1)
+				}
+				for _, i := range r.Perm(len(hs)) {
+					if r.Chance(1, 2) {
+						hs[i].c.Prune()
+						paths = append(paths, hs[i].pth)
+					}
+				}
 			default:
 				k := r.Range(1, 3)
 				if style == "many" {
@@ -875,10 +1276,29 @@ func treeCase(idx int) {
 					paths = append(paths, pth)
 				}
 			}
-			proof, err = pv.CreateProof(cur)
 		})
+		ps.paths = paths
 		wit["prune_paths"], wit["prune_style"] = paths, style
 		if p != nil {
+			wit["panic"], wit["stack"] = p.Value, mon.Trunc(p.Stack, 1200)
+			R.Violation("panic@"+p.Site+"/"+src+"(cursor)", wit)
+			ps.failed = true
+		} else if err != nil {
+			wit["err"] = err.Error()
+			R.Violation("error@NewMerkleProver", wit)
+			ps.failed = true
+		}
+		return ps
+	}
+	// prove: create the proof of a marked set and verify it
+	prove := func(ps *pruneSet) {
+		if ps.failed {
+			return
+		}
+		s, wit, paths, style := ps.s, ps.wit, ps.paths, ps.style
+		var proof []byte
+		var err error
+		if p := mon.Guard(func() { proof, err = ps.pv.CreateProof(ps.cur) }); p != nil {
 			wit["panic"], wit["stack"] = p.Value, mon.Trunc(p.Stack, 1200)
 			R.Violation("panic@"+p.Site+"/"+src, wit)
 			return
@@ -892,18 +1312,29 @@ func treeCase(idx int) {
 			R.Violation("error@"+src, wit)
 			return
 		}
-		_, st, ok := verifyProof(src, proof, orig, wit)
+		_, st, ok := verifyProof(src, proof, orig, wit, paths)
 		if !ok {
 			return
 		}
 		R.Count("pruned_cells_verified", int64(st.pruned))
 		R.Count("kept_cells_verified", int64(st.kept))
-		if len(paths) > 0 && st.pruned == 0 {
-			R.Count("prune_requests_without_pruned_cell", 1)
-		}
+		R.Count("pruned_branches_of_the_source_tree_verified", int64(st.sourcePruned))
 		if idx < 3 && s == 0 {
 			R.Sample(map[string]any{"kind": "generic tree proof", "tree_kind": kind, "prune_paths": paths, "proof_bytes": len(proof), "pruned_cells": st.pruned, "kept_cells": st.kept, "original_root_hash": mon.Hex(oh[:])})
 		}
+	}
+	if shareProver {
+		var marked []*pruneSet
+		for s := 0; s < sets; s++ {
+			marked = append(marked, mark(s))
+		}
+		for _, i := range r.Perm(len(marked)) {
+			prove(marked[i])
+		}
+		return
+	}
+	for s := 0; s < sets; s++ {
+		prove(mark(s))
 	}
 }
 
@@ -913,9 +1344,10 @@ func main() {
 		tier = os.Args[1]
 	}
 	R = mon.Start("C18", tier)
-	R.Rule = "dictionary proofs: tlb.ProveKeyInHashmap for every present key (<=64, else 64 sampled) and up to 32 absent keys of each dictionary (widths 8/16/32/64/256, C05's key-set shapes, written by the reference writer with canonical or mixed labels or by tongo, handed over in memory or through a BOC); generic proofs: MerkleProver cursor API over random DAGs/chains/wide trees with 2-5 prune sets each. Every proof is parsed by the strict reference BOC reader (which also re-derives every level mask), its root must be a type-3 cell with hash and depth of the original root, the pruned tree's level-0 hash/depth must equal them, the proof is walked in parallel with the original (pruned cell == 01 01 hash depth of the replaced sub-tree; other cells identical), the key is looked up inside the proof by the reference dictionary reader, tongo re-reads the proof to the same root hash and decodes the same pairs from it; absent key => error. evaluations = proofs requested; distinct = (original root hash, key | prune paths)"
+	R.Rule = "dictionary proofs: tlb.ProveKeyInHashmap for every present key (<=64, else 64 sampled) and up to 32 absent keys of each dictionary (widths 8/16/32/64/256, C05's key-set shapes, written by the reference writer with canonical or mixed labels or by tongo, handed over in memory or through a BOC); generic proofs: MerkleProver cursor API over random DAGs/chains/wide trees with 2-5 prune sets each. Every proof is parsed by the strict reference BOC reader (which also re-derives every level mask), its root must be a type-3 cell with hash and depth of the original root, the pruned tree's level-0 hash/depth must equal them, the proof is walked in parallel with the original (pruned cell == 01 01 hash depth of the replaced sub-tree; other cells identical), the key is looked up inside the proof by the reference dictionary reader, tongo re-reads the proof to the same root hash and decodes the same pairs from it; absent key => error. evaluations = proofs requested; distinct = (original root hash, key | prune paths). Added input classes: key widths 13/30/61/96 (not multiples of 8 or 4); augmented dictionaries (HashmapAug: forks with data after the label and a third reference); a comb over the full key width (256 levels); dictionaries whose cells were read to their end before (only the root rewound); dictionaries and trees that already contain pruned branches (level 1: taken out of an earlier proof) - the proof commits to the level-0 hash and depth of the tree it was made from and a pruned branch of the source is kept as it is; cursor API: all children cursors of a node taken first and pruned later, several live cursors of one prover marked before any proof is created, and the positions of the pruned branches in the proof must be exactly the requested positions (minus those below another requested position)"
 	R.Assume("reference models harness/ref/cell, ref/boc, ref/dict are correct: pinned at start-up by the Merkle equations and dictionaries of the repository's real data")
-	R.Assume("original trees hold ordinary cells only (pruneCells declares trees with exotic cells unsupported)")
+	R.Assume("source trees have level 0 or 1 (ordinary and library cells, and pruned branches of mask 1 as found in the body of a proof); trees containing Merkle-proof/update cells or pruned branches of higher levels are not tried (pruneCells declares the former unsupported)")
+	R.Assume("cursor API: Prune() marks the position of the cursor; the proof has pruned branches exactly at the marked positions that are not below another marked position")
 	eq, cells, err := realdata.SelfCheck(mon.RepoRoot(), true)
 	if err != nil {
 		R.HarnessError("reference cell model failed its self-check: %v", err)
@@ -933,7 +1365,7 @@ func main() {
 		idx int
 	}
 	var jobs []job
-	for i := 0; i < R.N(300, 6000); i++ {
+	for i := 0; i < R.N(400, 6000); i++ {
 		jobs = append(jobs, job{dictCase, i})
 	}
 	for i := 0; i < R.N(300, 6000); i++ {
